@@ -33,14 +33,28 @@ func (a *Analysis) stackInvariant(res *report.RuleResult) (growOK bool) {
 		return false
 	}
 	var topF, stackF *types.Var
-	for i := 0; i < lexer.NumFields(); i++ {
-		switch f := lexer.Field(i); f.Name() {
-		case "top":
-			topF = f
-		case "stack":
-			stackF = f
+	var find func(st *types.Struct, depth int)
+	find = func(st *types.Struct, depth int) {
+		for i := 0; i < st.NumFields(); i++ {
+			f := st.Field(i)
+			switch f.Name() {
+			case "top":
+				topF = f
+			case "stack":
+				stackF = f
+			}
+			if f.Embedded() && depth < 3 { // the scanner's registers grouped in an embedded struct
+				t := f.Type()
+				if p, ok := t.Underlying().(*types.Pointer); ok {
+					t = p.Elem()
+				}
+				if inner, ok := t.Underlying().(*types.Struct); ok {
+					find(inner, depth+1)
+				}
+			}
 		}
 	}
+	find(lexer, 0)
 	if topF == nil || stackF == nil {
 		res.Unknown("stack-invariant/fields", "-", "", "undecided:anchor: fields top/stack of Lexer not found")
 		return false
